@@ -84,14 +84,25 @@ def as_cmp(e):
     if e[0] == "not":
         cm = as_cmp(e[1])
         return (NEG[cm[0]], cm[1], cm[2]) if cm else None
+    cm = None
     if e[0] == "bin" and e[1] in SWAP:
-        return (e[1], e[2], e[3])
-    if e[0] == "call":
+        cm = (e[1], e[2], e[3])
+    elif e[0] == "call":
         segs = e[1].split("::")
         last = segs[-1]
         if last in CMP_CALLS and len(e[2]) == 2 and ("PartialEq" in e[1] or "PartialOrd" in e[1] or "cmp::" in e[1]):
-            return (CMP_CALLS[last], e[2][0], e[2][1])
-    return None
+            cm = (CMP_CALLS[last], e[2][0], e[2][1])
+    if cm and cm[0] in ("Eq", "Ne"):
+        # `a.cmp(&b) == Ordering::Less` is `a < b`
+        for x, y in ((cm[1], cm[2]), (cm[2], cm[1])):
+            if isinstance(x, tuple) and x[0] == "call" and x[1].split("::")[-1] in ("cmp",) and len(x[2]) == 2 and \
+                    isinstance(y, tuple) and y[0] == "agg" and y[1].endswith("cmp::Ordering"):
+                op = {"Less": "Lt", "Greater": "Gt", "Equal": "Eq"}.get(y[2])
+                if op:
+                    if cm[0] == "Ne":
+                        op = NEG[op]
+                    return (op, x[2][0], x[2][1])
+    return cm
 
 
 def cmp_truth_given_lt(op, l_is_x):
